@@ -2285,7 +2285,16 @@ class C07Oracle(OracleBase):
         k = op['k']
         if not hasattr(self, 'interrupted_roots'):
             self.interrupted_roots = set()
+            self.rejected_args = set()
             self._keep_roots = []
+        if out.status == 'raised' and self.forest.moved:
+            # a detached container handed over by reference and rejected: the known C03
+            # finding (List/Dict.custom_apply binds the argument to the field's spec
+            # before validating it) leaves it carrying a spec its contents violate
+            for ri in self.forest.moved:
+                if ri < len(self.forest.roots):
+                    self.rejected_args.add(id(self.forest.roots[ri]))
+                    self._keep_roots.append(self.forest.roots[ri])
         if interrupted and out.root_index is not None and \
                 out.root_index < len(self.forest.roots):
             # a user callback raised in the middle of a multi-step mutation (e.g. the
@@ -2403,6 +2412,15 @@ class C07Oracle(OracleBase):
             # constructing objects inside as_sealed(True) / allow_writable_accessors(False)
             # is refused by the library (see the C08 known finding); C07 has no scope dimension
             self.probes['clone_refused_under_scope'] = self.probes.get('clone_refused_under_scope', 0) + 1
+        elif k in CLONE_OPS and out.status == 'raised' and \
+                not isinstance(out.exc, HandlerFault) and \
+                isinstance(out.target, pg.Symbolic) and \
+                id(out.target.sym_root) in getattr(self, 'rejected_args', ()):
+            self.bad('C07.clone-raises', 'rejected-argument-bound-to-spec',
+                     f'{k} of a {type(out.target).__name__} raised {type(out.exc).__name__}: '
+                     f'{str(out.exc)[:160]} - the tree was the argument of a rejected write and '
+                     f'still carries the value spec of the field that rejected it', step)
+            return
         elif k in CLONE_OPS and out.status == 'raised' and not isinstance(out.exc, HandlerFault):
             self.bad('C07.clone-raises', f'{k}|{type(out.exc).__name__}',
                      f'{k} of a {type(out.target).__name__} raised {type(out.exc).__name__}: '
